@@ -43,6 +43,8 @@ CHECKS = {
          "every 1-byte substitution and truncation of valid frames, boundary length prefixes, all bodies <=2 bytes, boundary-valued well-typed messages: no panic at either end, nothing stuck, a probe request is still served after every well-formed odd message", "5/C16", "mc"),
  "C18": ("model_checking", "stateless deviation-bounded DFS with distinct caller trace contexts; wire-level trace oracle",
          "request and cancel trace fields on the wire for every schedule incl. cancellation at every point", "5/C18", "mc"),
+ "C17": ("exploration", "exhaustive enumeration over a grid of programs (service definitions; pairwise cover in quick, cover + 900 grid points in thorough), each compiled with the real macro and executed over a real client/server pair",
+         "for every accepted definition and every method: exactly one invocation of that method with the arguments in order and the request's context, the right value back, RequestName '<Service>.<method>'; collision candidates are rejected at compile time or behave", "5/C17", "macro_grid"),
  "C19": ("exploration", "exhaustive enumeration of hook nestings (<=3 wrappers, 259 generic instantiations) x behaviour assignments against a reference interpreter",
          "for every nesting and every assignment of before/after/handler behaviours the invocation log (order, context seen, result seen) and the final Result equal the reference interpreter's", "5/C19", "mc"),
  "C20": ("exploration", "exhaustive grids over backends x call sequences x clone patterns x first-poll orders x hashers x retry tables; loom (preemption-bounded exhaustive interleavings) on the extracted round-robin cursor module",
@@ -83,6 +85,8 @@ def main():
         "engines": [
             {"name": "mc", "path": "/verif/mc", "serves_properties": [c for c in CHECKS if CHECKS[c][4].startswith("mc")],
              "kind_free_text": "stateless model checker: deviation-bounded exhaustive DFS over choice sequences, every transition a call into the real tarpc code under a harness-owned scheduler, clock, transport and fault injector"},
+            {"name": "macro_grid", "path": "/verif/macro_grid", "serves_properties": ["C17"],
+             "kind_free_text": "program-family enumerator: generates the service-definition grid, compiles it against /repo with the real proc macro, runs every accepted definition"},
             {"name": "mc-loom", "path": "/verif/mc-loom", "serves_properties": ["C20"],
              "kind_free_text": "loom model of the round-robin cursor: build.rs cuts `mod cycle` out of /repo's load_balance.rs and swaps std::sync for loom::sync; exhaustive interleavings within a preemption bound"},
         ],
